@@ -104,6 +104,11 @@ func modName(b *Batch) string {
 
 func (e *evidence) write(wall float64) {
 	dir := filepath.Join(verifDir, "evidence")
+	if os.Getenv("VERIF_REPO") != "" && os.Getenv("VERIF_REPO") != "/repo" {
+		// an experiment against a copy of the repository (a seeded change, a sweep): the evidence of record, which
+		// describes /repo itself, is left alone
+		dir = filepath.Join(os.TempDir(), "verif-evidence-of-experiments")
+	}
 	os.MkdirAll(dir, 0755)
 	samples := []interface{}{}
 	for _, s := range e.samples {
